@@ -306,6 +306,9 @@ func (f *SQLFormatter) formatSetOperation(stmt *ast.SetOperation) error {
 
 // formatInsert formats INSERT statements
 func (f *SQLFormatter) formatInsert(stmt *ast.InsertStatement) error {
+	if err := f.formatLeadingWith(stmt.With); err != nil {
+		return err
+	}
 	f.writeKeyword("INSERT INTO")
 	f.builder.WriteString(" " + stmt.TableName)
 
@@ -342,7 +345,66 @@ func (f *SQLFormatter) formatInsert(stmt *ast.InsertStatement) error {
 		}
 	}
 
+	if err := f.formatOnConflict(stmt.OnConflict); err != nil {
+		return err
+	}
 	f.formatReturning(stmt.Returning)
+	return nil
+}
+
+// formatLeadingWith writes the WITH clause of a data-modifying statement
+func (f *SQLFormatter) formatLeadingWith(with *ast.WithClause) error {
+	if with == nil {
+		return nil
+	}
+	if err := f.formatWithClause(with); err != nil {
+		return err
+	}
+	f.writeNewline()
+	return nil
+}
+
+// formatOnConflict writes the ON CONFLICT clause of INSERT
+func (f *SQLFormatter) formatOnConflict(oc *ast.OnConflict) error {
+	if oc == nil {
+		return nil
+	}
+	f.writeNewline()
+	f.writeKeyword("ON CONFLICT")
+	if len(oc.Target) > 0 {
+		f.builder.WriteString(" (")
+		f.formatExpressionList(oc.Target, ", ")
+		f.builder.WriteString(")")
+	}
+	if oc.Constraint != "" {
+		f.builder.WriteString(" ")
+		f.writeKeyword("ON CONSTRAINT")
+		f.builder.WriteString(" " + oc.Constraint)
+	}
+	f.builder.WriteString(" ")
+	if oc.Action.DoNothing {
+		f.writeKeyword("DO NOTHING")
+		return nil
+	}
+	f.writeKeyword("DO UPDATE SET")
+	f.builder.WriteString(" ")
+	for i, update := range oc.Action.DoUpdate {
+		update := update // G601: Create local copy to avoid memory aliasing
+		if i > 0 {
+			f.builder.WriteString(", ")
+		}
+		if err := f.formatUpdateExpression(&update); err != nil {
+			return err
+		}
+	}
+	if oc.Action.Where != nil {
+		f.builder.WriteString(" ")
+		f.writeKeyword("WHERE")
+		f.builder.WriteString(" ")
+		if err := f.formatExpression(oc.Action.Where); err != nil {
+			return err
+		}
+	}
 	return nil
 }
 
@@ -359,6 +421,9 @@ func (f *SQLFormatter) formatReturning(exprs []ast.Expression) {
 
 // formatUpdate formats UPDATE statements
 func (f *SQLFormatter) formatUpdate(stmt *ast.UpdateStatement) error {
+	if err := f.formatLeadingWith(stmt.With); err != nil {
+		return err
+	}
 	f.writeKeyword("UPDATE")
 	f.builder.WriteString(" " + stmt.TableName)
 
@@ -397,6 +462,9 @@ func (f *SQLFormatter) formatUpdate(stmt *ast.UpdateStatement) error {
 
 // formatDelete formats DELETE statements
 func (f *SQLFormatter) formatDelete(stmt *ast.DeleteStatement) error {
+	if err := f.formatLeadingWith(stmt.With); err != nil {
+		return err
+	}
 	f.writeKeyword("DELETE FROM")
 	f.builder.WriteString(" " + stmt.TableName)
 
@@ -455,12 +523,76 @@ func (f *SQLFormatter) formatCreateTable(stmt *ast.CreateTableStatement) error {
 		f.formatColumnDef(&col)
 	}
 
+	for i, con := range stmt.Constraints {
+		con := con // G601: Create local copy to avoid memory aliasing
+		if i > 0 || len(stmt.Columns) > 0 {
+			f.builder.WriteString(",")
+			if !f.compact {
+				f.writeNewline()
+			} else {
+				f.builder.WriteString(" ")
+			}
+		}
+		if !f.compact {
+			f.builder.WriteString(f.currentIndent())
+		}
+		if err := f.formatTableConstraint(&con); err != nil {
+			return err
+		}
+	}
+
 	if !f.compact {
 		f.decreaseIndent()
 		f.writeNewline()
 	}
 	f.builder.WriteString(")")
 
+	if stmt.PartitionBy != nil {
+		f.builder.WriteString(" ")
+		f.writeKeyword("PARTITION BY")
+		f.builder.WriteString(" ")
+		f.writeKeyword(stmt.PartitionBy.Type)
+		f.builder.WriteString(" (" + strings.Join(stmt.PartitionBy.Columns, ", ") + ")")
+	}
+
+	return nil
+}
+
+// formatTableConstraint formats a table-level constraint of CREATE TABLE
+func (f *SQLFormatter) formatTableConstraint(tc *ast.TableConstraint) error {
+	if tc.Name != "" {
+		f.writeKeyword("CONSTRAINT")
+		f.builder.WriteString(" " + tc.Name + " ")
+	}
+	f.writeKeyword(tc.Type)
+	switch tc.Type {
+	case "PRIMARY KEY", "UNIQUE":
+		f.builder.WriteString(" (" + strings.Join(tc.Columns, ", ") + ")")
+	case "FOREIGN KEY":
+		f.builder.WriteString(" (" + strings.Join(tc.Columns, ", ") + ")")
+		if r := tc.References; r != nil {
+			f.builder.WriteString(" ")
+			f.writeKeyword("REFERENCES")
+			f.builder.WriteString(" " + r.Table)
+			if len(r.Columns) > 0 {
+				f.builder.WriteString(" (" + strings.Join(r.Columns, ", ") + ")")
+			}
+			if r.OnDelete != "" {
+				f.builder.WriteString(" ")
+				f.writeKeyword("ON DELETE " + r.OnDelete)
+			}
+			if r.OnUpdate != "" {
+				f.builder.WriteString(" ")
+				f.writeKeyword("ON UPDATE " + r.OnUpdate)
+			}
+		}
+	case "CHECK":
+		f.builder.WriteString(" (")
+		if err := f.formatExpression(tc.Check); err != nil {
+			return err
+		}
+		f.builder.WriteString(")")
+	}
 	return nil
 }
 
@@ -482,7 +614,13 @@ func (f *SQLFormatter) formatCreateIndex(stmt *ast.CreateIndexStatement) error {
 	f.builder.WriteString(" " + stmt.Name)
 	f.builder.WriteString(" ")
 	f.writeKeyword("ON")
-	f.builder.WriteString(" " + stmt.Table + " (")
+	f.builder.WriteString(" " + stmt.Table)
+	if stmt.Using != "" {
+		f.builder.WriteString(" ")
+		f.writeKeyword("USING")
+		f.builder.WriteString(" " + stmt.Using)
+	}
+	f.builder.WriteString(" (")
 
 	for i, col := range stmt.Columns {
 		if i > 0 {
@@ -494,6 +632,15 @@ func (f *SQLFormatter) formatCreateIndex(stmt *ast.CreateIndexStatement) error {
 		}
 	}
 	f.builder.WriteString(")")
+
+	if stmt.Where != nil {
+		f.writeNewline()
+		f.writeKeyword("WHERE")
+		f.builder.WriteString(" ")
+		if err := f.formatExpression(stmt.Where); err != nil {
+			return err
+		}
+	}
 
 	return nil
 }
@@ -634,6 +781,14 @@ func (f *SQLFormatter) formatWithClause(with *ast.WithClause) error {
 
 		f.builder.WriteString(" ")
 		f.writeKeyword("AS")
+		if cte.Materialized != nil {
+			f.builder.WriteString(" ")
+			if *cte.Materialized {
+				f.writeKeyword("MATERIALIZED")
+			} else {
+				f.writeKeyword("NOT MATERIALIZED")
+			}
+		}
 		f.builder.WriteString(" (")
 
 		if !f.compact {
@@ -1378,6 +1533,11 @@ func (f *SQLFormatter) formatCreateView(stmt *ast.CreateViewStatement) error {
 		return err
 	}
 	f.decreaseIndent()
+
+	if stmt.WithOption != "" {
+		f.writeNewline()
+		f.writeKeyword("WITH " + stmt.WithOption)
+	}
 
 	return nil
 }
